@@ -1055,3 +1055,32 @@ func (e *Env) ReleaseHandles() error {
 	}
 	return nil
 }
+
+// OpenWith opens the DB through the given function (e.g. leveldb.Recover)
+// with the executor's observers installed.
+func (e *Env) OpenWith(what string, open func() (*leveldb.DB, error)) error {
+	leveldb.VerifSetVersionObserver(func(p *leveldb.VerifVersion) bool {
+		e.pinMu.Lock()
+		defer e.pinMu.Unlock()
+		e.versions++
+		if e.C.Tree {
+			e.pinned = append(e.pinned, p)
+			return true
+		}
+		return false
+	})
+	e.opens++
+	db, err := open()
+	if err != nil {
+		leveldb.VerifSetVersionObserver(nil)
+		return e.fail("%s failed: %v", what, err)
+	}
+	e.DB = db
+	return e.drainPinned()
+}
+
+// SetOpIdx sets the operation index used in violation messages.
+func (e *Env) SetOpIdx(i int) { e.opIdx = i }
+
+// Idle waits for background work and runs the idle-time checks.
+func (e *Env) Idle() error { return e.idle(true) }
